@@ -1,11 +1,15 @@
 //! Harness binary `h_misc <PROP> --seed S --tier T [--count N] [--replay F]`.
 //! One module per property (`cNN.rs`, `pub fn run(args: &hcore::Args, out: &mut hcore::Out)`).
+mod c56;
+mod c57;
 
 fn main() {
     let args = hcore::Args::parse();
     hcore::quiet_panics();
     let mut out = hcore::Out::new();
     match args.prop.as_str() {
+        "C56" => c56::run(&args, &mut out),
+        "C57" => c57::run(&args, &mut out),
         p => {
             let _ = &mut out;
             eprintln!("h_misc: unknown property {p}");
